@@ -247,6 +247,23 @@ pub fn search(seed: u64, n: u64) {
         stats.case(&format!("self_collide vertex_on_axis_parallel_edge {:?}", p), true);
         self_collide_set(&mut stats, &vec![p], "odd_self.vertex_on_axis_parallel_edge");
     }
+    // an edge of the other path running exactly through the DOUBLE POINT of a looping cubic edge: it crosses both branches at (nearly) one
+    // position - two hits with the same parameter on the straight edge and different parameters on the cubic (own stream; integer scales
+    // and offsets of the loop (0,0),(14,8),(-4,8),(10,0), whose double point (5, 3.75) is exact)
+    let mut rng_dp = Rng(seed ^ 0xD0B1C03);
+    for k in 0..(4 + n / 60) {
+        let sc = (1 + rng_dp.i(4)) as f64;
+        let off = Coord2((5 + rng_dp.i(40)) as f64, (5 + rng_dp.i(40)) as f64);
+        let q = |x: f64, y: f64| Coord2(off.0 + sc * x, off.1 + sc * y);
+        let looped: P = (q(0.0, 0.0), vec![(q(14.0, 8.0), q(-4.0, 8.0), q(10.0, 0.0)), { let (a, b) = (q(10.0, 0.0), q(0.0, 0.0)); (a + (b - a) * (1.0 / 3.0), a + (b - a) * (2.0 / 3.0), b) }]);
+        let x = q(5.0, 3.75);
+        let other = if k % 2 == 0 { polygon(&[Coord2(x.0 - 8.0 * sc, x.1), Coord2(x.0 + 8.0 * sc, x.1), Coord2(x.0 + 8.0 * sc, x.1 - sc), Coord2(x.0 - 8.0 * sc, x.1 - sc)]) }
+            else { polygon(&[Coord2(x.0 - 4.0 * sc, x.1 - 3.0 * sc), Coord2(x.0 + 4.0 * sc, x.1 + 3.0 * sc), Coord2(x.0 + 6.0 * sc, x.1 - 5.0 * sc)]) };
+        let (a, b) = if k % 4 < 2 { (vec![looped], vec![other]) } else { (vec![other], vec![looped]) };
+        stats.count("input.through_double_point_of_loop");
+        stats.case(&format!("through_double_point_of_loop A={:?} B={:?}", a, b), true);
+        collide_pair_x(&mut stats, &a, &b, "through_double_point_of_loop", true);
+    }
     for it in 0..n {
         if it % 11 == 10 {
             // a self-intersecting or degenerate path (bow tie, looped cubic, tear drop, repeated vertex, pentagram) against a shape,
